@@ -307,7 +307,8 @@ HIST_ALPHABET = [['clouds_pressure', 1e1], ['clouds_pressure', 1e3], ['clouds_pr
                  ['atm_min_pressure', 1e1]]
 # requested spectral windows of equal length at both ends of the native grid, and the full grid again
 HIST_ALPHABET += [['__window__', [1000.0, 2000.0]], ['__window__', [3000.0, 4000.0]], ['__window__', None]]
-HIST_REDUCED = [['clouds_pressure', 1e1], ['clouds_pressure', 1e5], ['flat_topP', 1e0], ['flat_topP', -1],
+# ['H2O', 1.5]: a mixing ratio above one - the model is rejected, and the history goes on from there
+HIST_REDUCED = [['H2O', 1.5], ['clouds_pressure', 1e1], ['clouds_pressure', 1e5], ['flat_topP', 1e0], ['flat_topP', -1],
                 ['flat_bottomP', 1e2], ['lee_mie_topP', 1e3], ['lee_mie_bottomP', 1e2], ['atm_max_pressure', 1e7],
                 ['atm_min_pressure', 1e-3]]
 
